@@ -129,6 +129,16 @@ def c17_board(req):
         lo = ts(p.idxToDate(i))
         if not (lo <= t < lo + g):
             note(f"project time(index({t}))={lo} does not frame it (slot length {g})")
+    # the same Project object after its resolution was changed (the parser sets the attributes one after the other): the
+    # conversions follow the CURRENT resolution, whatever was asked before
+    for g2 in [x for x in (300, 900, 1800, 3600, 7200) if x != g][:2]:
+        p["timingresolution"] = g2
+        n2 = max(1, (e - s) // g2)
+        for i in sorted({0, 1, 2, min(5, n2), n2 // 2, n2 - 1}):
+            if ts(p.idxToDate(i)) != s + i * g2:
+                note(f"project time({i}) = {ts(p.idxToDate(i))} after the resolution was changed from {g} to {g2}: want {s + i * g2}")
+            elif p.dateToIdx(p.idxToDate(i)) != i:
+                note(f"project index(time({i})) != {i} after the resolution was changed from {g} to {g2}")
     return {"size": n, "bad": bad}
 
 
